@@ -105,7 +105,10 @@ ABTU_ret_err static int id_list_add(alloc_list *p_alloc_list,
                            (void **)&p_id_list->ids);
     ABTI_CHECK_ERROR(ret);
     for (i = 0; i < num; i++) {
-        p_id_list->ids[p_id_list->num + i] = id + stride * i;
+        const int64_t val = (int64_t)id + (int64_t)stride * (int64_t)i;
+        if (val < (int64_t)INT_MIN || (int64_t)INT_MAX < val)
+            return ABT_ERR_OTHER; /* The ID does not fit in int. */
+        p_id_list->ids[p_id_list->num + i] = (int)val;
     }
     p_id_list->num += num;
     return ABT_SUCCESS;
@@ -140,8 +143,13 @@ ABTU_ret_err static int list_add(alloc_list *p_alloc_list,
         ret = list_calloc(p_alloc_list, sizeof(int) * p_id_list->num,
                           (void **)&p_id_list->ids);
         ABTI_CHECK_ERROR(ret);
-        for (j = 0; j < p_id_list->num; j++)
-            p_id_list->ids[j] = p_base->ids[j] + stride * i;
+        for (j = 0; j < p_id_list->num; j++) {
+            const int64_t val =
+                (int64_t)p_base->ids[j] + (int64_t)stride * (int64_t)i;
+            if (val < (int64_t)INT_MIN || (int64_t)INT_MAX < val)
+                return ABT_ERR_OTHER; /* The ID does not fit in int. */
+            p_id_list->ids[j] = (int)val;
+        }
         p_list->p_id_lists[p_list->num + i] = p_id_list;
     }
     p_list->p_id_lists[p_list->num] = p_base;
@@ -174,7 +182,12 @@ static int consume_int(const char *str, uint32_t *p_index, int *p_val)
         } else if ('0' <= c && c <= '9') {
             /* Value. */
             flag = 'v';
-            val = val * 10 + (int)(c - '0');
+            const int digit = (int)(c - '0');
+            if (val > (INT_MAX - digit) / 10) {
+                /* Failed.  The value does not fit in int. */
+                return 0;
+            }
+            val = val * 10 + digit;
         } else {
             /* Encounters a symbol. */
             if (flag == 'v') {
